@@ -255,6 +255,21 @@ fn run_type<T: Tv>(idx: usize, rep: &mut Report, rng: &mut Rng, args: &Args) {
                            "expected": hex_bytes(&e.bytes[..e.bytes.len().min(400)]), "value": trunc(format!("{val:?}"))}),
                 );
             }
+            // ---- the hash extension trait streams the same bytes into a digest
+            if w.buf == e.bytes && i % 4 == 0 {
+                use ark_serialize::CanonicalSerializeHashExt;
+                use sha2::Digest;
+                let got = rep.total(&sig2(T::KIND, "hash-ext"), || json!({"type": tname}), || match c {
+                    Compress::Yes => val.hash::<sha2::Sha256>().to_vec(),
+                    Compress::No => val.hash_uncompressed::<sha2::Sha256>().to_vec(),
+                });
+                if let Some(got) = got {
+                    rep.op("CanonicalSerializeHashExt");
+                    if got != sha2::Sha256::digest(&e.bytes).to_vec() {
+                        rep.violation(sig2(T::KIND, "hash-ext/value"), json!({"type": tname, "mode": cname(c), "value": trunc(format!("{val:?}"))}));
+                    }
+                }
+            }
             // ---- round trip in both validation modes
             let bytes = w.buf.clone();
             for v in [Validate::Yes, Validate::No] {
@@ -755,6 +770,19 @@ fn wrapper_validation(rep: &mut Report, _rng: &mut Rng, _args: &Args) {
                 cont::<Arc<ToyPt>>(rep, "Arc", c, &x, has_bad);
                 cont::<Cow<'static, ToyPt>>(rep, "Cow", c, &x, has_bad);
                 cont::<Vec<Option<ToyPt>>>(rep, "Vec", c, &[n(2), vec![0u8], vec![1u8], x.clone()].concat(), has_bad);
+                // containers inside containers: the inner container's own check / batch_check is what runs here
+                cont::<Vec<VecDeque<ToyPt>>>(rep, "Vec<VecDeque>", c, &[n(1), n(2), g0.clone(), x.clone()].concat(), has_bad);
+                cont::<Vec<LinkedList<ToyPt>>>(rep, "Vec<LinkedList>", c, &[n(1), n(2), x.clone(), g0.clone()].concat(), has_bad);
+                cont::<Vec<[ToyPt; 2]>>(rep, "Vec<array>", c, &[n(1), g0.clone(), x.clone()].concat(), has_bad);
+                cont::<Vec<Arc<ToyPt>>>(rep, "Vec<Arc>", c, &[n(1), x.clone()].concat(), has_bad);
+                cont::<Vec<Cow<'static, ToyPt>>>(rep, "Vec<Cow>", c, &[n(1), x.clone()].concat(), has_bad);
+                cont::<Option<Vec<ToyPt>>>(rep, "Option<Vec>", c, &[vec![1u8], n(2), g0.clone(), x.clone()].concat(), has_bad);
+                cont::<Vec<BTreeMap<u8, ToyPt>>>(rep, "Vec<BTreeMap>", c, &[n(1), n(1), vec![1u8], x.clone()].concat(), has_bad);
+                cont::<[Vec<ToyPt>; 2]>(rep, "array<Vec>", c, &[n(1), g0.clone(), n(1), x.clone()].concat(), has_bad);
+                cont::<Vec<(ToyPt, u8)>>(rep, "Vec<tuple>", c, &[n(1), x.clone(), vec![7u8]].concat(), has_bad);
+                cont::<VecDeque<Vec<ToyPt>>>(rep, "VecDeque<Vec>", c, &[n(2), n(1), g0.clone(), n(1), x.clone()].concat(), has_bad);
+                cont::<LinkedList<Option<ToyPt>>>(rep, "LinkedList<Option>", c, &[n(2), vec![1u8], x.clone(), vec![0u8]].concat(), has_bad);
+                cont::<BTreeMap<u8, Vec<ToyPt>>>(rep, "BTreeMap<Vec>", c, &[n(1), vec![3u8], n(1), x.clone()].concat(), has_bad);
                 cont::<PtS>(rep, "derive/nested-tuple", c, &[vec![5u8], g0.clone(), vec![6u8], x.clone()].concat(), has_bad);
                 cont::<GenS<ToyPt, ToyPt>>(rep, "derive/generic", c, &[g0.clone(), n(1), x.clone(), g1.clone(), g0.clone()].concat(), has_bad);
             }
